@@ -259,6 +259,24 @@ def rule_flow(ctx):
         turned = any(c[0] == "bool" and c[1][0] == "call" and c[1][1].endswith("is_tls_traffic") and c[2] is False for c in pc)
         if tracked and turned:
             okt = False
+    # ... and by nothing else either: the only reasons not to hand a segment to the reader are `no payload` and `untracked and not TLS`
+    odd = None
+    for tr in rtr:
+        if ablk in tr:
+            continue
+        pc = PA.path_conds(P, b, S, tr)
+        if PA.contradicts_constants(pc):
+            continue
+        empty = any((c[0] == "bool" and c[1][0] == "call" and c[1][1].endswith("::is_empty") and c[2] is True and T.has_call(c[1], "::payload")) or
+                    (c[0] == "cmp" and c[1] == "Eq" and c[4] is True and T.has_call(c[2], "::len") and T.has_call(c[2], "::payload") and T.fold_int(c[3]) == 0) for c in pc)
+        untracked_not_tls = any(c[0] == "bool" and c[1][0] == "call" and c[1][1].endswith("is_tls_traffic") and c[2] is False for c in pc)
+        lost = any(c[0] in ("variant",) and T.has_call(c[1], "get_mut") and T.has_call(c[1], "ok_or_else") for c in pc) or any(T.has_call(c[1], "ok_or_else") for c in pc if c[0] == "variant")
+        if not (empty or untracked_not_tls or lost):
+            odd = [c[0] + ":" + T.pp(c[1])[:50] + "=" + str(c[2] if c[0] != "cmp" else (c[1], c[4])) for c in pc if c[0] in ("bool", "cmp")][-3:]
+            break
+    ctx.check(odd is None and not trunc2, "R3", "process_tcp_packet:segments-reach-reader", "a segment bypasses the reader only when it has no payload or belongs to no TLS flow",
+              "a segment with payload of a tracked flow can return before add_bytes under %s: short continuation segments are dropped and the record never completes for those "
+              "segmentations" % odd, ctx.loc(b))
     ctx.check(okt and not trunc2, "R3", "process_tcp_packet:continuation", "continuation segments of a tracked flow are accepted without header check",
               "a segment of a tracked flow can be rejected because it does not start with a TLS handshake header (every continuation segment would be)", ctx.loc(b))
     # tracked flow reaches add_bytes: add_bytes post-dominates the get_mut==Some edge
@@ -349,7 +367,20 @@ def rule_dispatch(ctx):
     C18.rule_R2(R.Retag(ctx, "C18."))
 
 
+def rule_parallel(ctx):
+    """parallel mode: the pool is built with the configured limits in their own positions, batches are processed in arrival order; the
+    reader discards what it cannot use (C11.R1 on the reader buffer)"""
+    from ..engine import report as R
+    from . import _argswap as AS
+    from . import _workers as W
+    from . import C11
+    AS.swapped_arguments(ctx, ctx.program, "W.R1", ("huginn_net_tls",), only_params=("max_connections", "queue_size", "batch_size", "timeout_ms", "num_workers"))
+    W.fifo_batch(ctx, ctx.program, "huginn_net_tls", "tls", "W.R3")
+    C11.rule_R1(R.Retag(ctx, "C11."), only=("TlsClientHelloReader",))
+
+
 def run(ctx):
+    rule_parallel(ctx)
     rule_dispatch(ctx)
     rule_reset(ctx)
     rule_segments(ctx)
